@@ -388,7 +388,7 @@ class BaseSamples:
         """Create a Samples object from a BaseSamples object."""
         xp = kwargs.pop("xp", samples.xp)
         device = kwargs.pop("device", samples.device)
-        dtype = kwargs.pop("dtype", samples.dtype)
+        dtype = kwargs.pop("dtype", None)
         if dtype is not None:
             dtype = resolve_dtype(dtype, xp)
         else:
